@@ -300,7 +300,8 @@ class SynthDesc():
         ugen._add_to_synth()
 
         def add_iodesc(iolst, nchan):  # lambda
-            b = ugen.inputs[0]
+            # LocalIn/LocalOut may have no inputs at all.
+            b = ugen.inputs[0] if ugen.inputs else None
             if type(b) is ugn.OutputProxy\
             and isinstance(b.source_ugen, iou.Control):
                 control = None
